@@ -453,3 +453,11 @@ def %s(bits, accessor, start_index, shuffles, k, R, rank, n):
 for _sh in (False, True):
     for _vt in (False, True):
         c01_fast(_sh, _vt)
+
+
+# ---------------------------------------------------------------------------------------------------------------- C12
+harness("c12_rc_code_is_reverse_complement", {"m": "dna", "i": "nat"}, '''
+def c12_rc_code_is_reverse_complement(m, i):
+    r = rc_code(m)
+    assert len(r) == len(m) and chr_(r[i]) == comp(m[len(m) - 1 - i]), "the four replaces + reverse + upper compute the reverse complement"
+''', requires={"position": "i < len(m)"})
